@@ -18,6 +18,7 @@ RULE = (
     "patches as in C01 (zero-sized input blocks take and pass on "
     "fallthrough, return and branch edges)."
     " Second module in the IR as in C01: its blocks and its edges in ir.cfg must be unchanged."
+    " 1% of the modules have 30-89 code blocks."
 )
 RULE += (
     " More calls into one function and more function-centred edit sets (incl. a second returning patch) than the other listing checks; pairs of call blocks to one callee of which one is deleted, callees with many call sites that always return."
@@ -33,7 +34,7 @@ def gen_case(rng, tier, index):
     # (more calls into one function and more function-centred edit sets than
     # the other listing checks: return edges are this property's subject)
     return gen_rewrite.generate(rng, tier, popular_callee_p=0.35,
-                                themed_p=0.4, call_pair_p=0.2)
+                                themed_p=0.4, call_pair_p=0.2, big_p=0.01)
 
 
 def run_case(case):
